@@ -286,6 +286,29 @@ def _(m):
              bounded='|v|<=1024, bounds <=1024 with <=4 significant bits')
 
 
+@rule('wrapped_f32_identity_on_first_period')
+def _(m):
+    return E('thorough', 900, 'wrapped (and the alias wrap) is exactly the identity on [0,upper): pins the period; symbolic upper, every significand', 'all f32 (v,upper) with upper finite and 0<=v<upper')
+
+
+@rule('pingpong_f32_triangle_on_first_period')
+def _(m):
+    return E('thorough', 1800, 'pingpong is the triangle wave on its first period: v on [0,upper], 2*upper-v on [upper,2*upper], up to 4 ulp of upper; pins the period; symbolic upper, every significand',
+             'all f32 (v,upper) with upper>0, 2*upper finite, 0<=v<=2*upper')
+
+
+@rule('wrapped_between_f32_identity_on_first_period')
+def _(m):
+    return E('quick', 300, 'wrapped_between is the identity on [lower,upper) up to the tolerance (modulo one period at the upper edge)',
+             'all f32 v and bounds with <=4 significant bits, 0<=lower<=v<upper<=1024, upper-lower>=1/16', bounded='bounds <=1024 with <=4 significant bits')
+
+
+@rule('wrapped_between_f32_const_bounds_bounded1024')
+def _(m):
+    return E('thorough', 900, 'wrapped_between lies in [lower,upper] and is congruent to v mod (upper-lower), both up to 4 ulp of max(|v|,upper) (integer witness, residual in f64)',
+             'all f32 v with |v|<=1024; (lower,upper) in {(2,5),(0,1),(0.5,6.25),(3,3.5),(100,360)}', bounded='|v|<=1024, constant bounds')
+
+
 @rule('wrapped_f32_finite_inputs_finite_result')
 def _(m):
     return E('quick', 120, 'wrapped: finite inputs give a finite (non-NaN) result', 'all finite f32 v, finite upper>0',
